@@ -171,6 +171,11 @@ func (c *LRU) Put(b bgzf.Block) (evicted bgzf.Block, retained bool) {
 	c.mu.Lock()
 	defer c.mu.Unlock()
 
+	if c.cap < 1 {
+		// A cache resized to hold nothing retains nothing.
+		return b, false
+	}
+
 	var d bgzf.Block
 	if _, ok := c.table[b.Base()]; ok {
 		return b, false
@@ -294,6 +299,11 @@ func (c *FIFO) Peek(base int64) (exist bool, next int64) {
 func (c *FIFO) Put(b bgzf.Block) (evicted bgzf.Block, retained bool) {
 	c.mu.Lock()
 	defer c.mu.Unlock()
+
+	if c.cap < 1 {
+		// A cache resized to hold nothing retains nothing.
+		return b, false
+	}
 
 	var d bgzf.Block
 	if n, ok := c.table[b.Base()]; ok {
@@ -432,6 +442,11 @@ func (c *Random) Peek(base int64) (exist bool, next int64) {
 func (c *Random) Put(b bgzf.Block) (evicted bgzf.Block, retained bool) {
 	c.mu.Lock()
 	defer c.mu.Unlock()
+
+	if c.cap < 1 {
+		// A cache resized to hold nothing retains nothing.
+		return b, false
+	}
 
 	var d bgzf.Block
 	if _, ok := c.table[b.Base()]; ok {
